@@ -162,6 +162,11 @@ impl<const MAX_PDI: usize> Grp<MAX_PDI> {
         assert(layout_ok(addrs0, start0, pos));
         assert(pos[2 * (addrs0.len() as int)] == pdi_position.start_address - start0);
     }
+@before "return Err(Error::PdiTooLong"
+    proof {
+        // ONLY a layout that really exceeds the capacity is refused as too long: an image that fills it exactly is accepted
+        assert(self.pdi_len > MAX_PDI);
+    }
 @*/
 }
 
